@@ -20,3 +20,5 @@ Definition err_code (e : err) : Z :=
   | UnicodeErr => 7 | AssertErr => 8 | AttributeErr => 9 | RuntimeErr => 10 | ImportErr => 11
   | RecursionErr => 12 | MemoryErr => 13 | OverflowErr => 14 | StopIter => 15 | ZeroDivErr => 16 | OutOfFuel => 99
   end.
+Notation "'do2' p <- r ; k" := (bind r (fun x => let 'p := x in k))
+  (at level 200, p strict pattern, r at level 100, k at level 200).
